@@ -91,6 +91,7 @@ THEOREMS = [
     "PV.C08.C08_perm_plscf_rmfd",
     "PV.C08.C08_perm_plscf_column",
     "PV.C08.C08_perm_plscf",
+    "PV.C08.C08_perm_plscf_poles",
     "PV.C08.C08_perm_plscf_square",
 ]
 RULE = (
